@@ -136,11 +136,13 @@ def comprehension_over_reclist(eng, comp_node, st):
     if len(comp_node.generators) != 1:
         return None
     comp = comp_node.generators[0]
-    if comp.ifs or not isinstance(comp.target, ast.Name):
+    if not isinstance(comp.target, ast.Name):
         return None
     rl = eng.ev1(comp.iter, st)
     if not isinstance(rl, VRecList):
         return comprehension_over_seq(eng, comp_node, comp, rl, st)
+    if comp.ifs:
+        return None
     var = smt.bound(eng.ctx, 'ix', INT)
     s2 = st.copy()
     fid = s2.new_frame(s2.cur)
@@ -175,6 +177,8 @@ def comprehension_over_seq(eng, comp_node, comp, itv, st):
         seq, elem = eng.seq_of(itv, st)
     except Undecided:
         return None
+    if comp.ifs:
+        return filtered_comprehension(eng, comp_node, comp, seq, elem, st)
     var = smt.bound(eng.ctx, 'ix', INT)
     s2 = st.copy()
     fid = s2.new_frame(s2.cur)
@@ -201,3 +205,41 @@ def comprehension_over_seq(eng, comp_node, comp, itv, st):
     rl.n = Len(seq)
     eng.last_comp = (var, rl)
     return VSeq(L, ty)
+
+
+def filtered_comprehension(eng, comp_node, comp, seq, elem, st):
+    """``[x for x in xs if cond(x)]`` over a sequence of primitives: F(xs) for an uninterpreted F with the unfolding
+       F(ys) = [] if ys is empty else F(ys[:-1]) + ([ys[-1]] if cond(ys[-1]) else [])
+    attached as an axiom of F; F is cached per condition text, so the same filter written in the code and in the
+    specification is the same symbol."""
+    from .smt import ForAll, Implies, Gt, Sub, Substr, Ite, Concat as Cc
+    if not (isinstance(comp_node.elt, ast.Name) and comp_node.elt.id == comp.target.id):
+        return None
+    sort = '(Seq %s)' % sort_of(elem)
+    x = smt.bound(eng.ctx, 'x', sort_of(elem))
+    s2 = st.copy()
+    fid = s2.new_frame(s2.cur)
+    s2.cur = fid
+    s2.bind(comp.target.id, wrap(x, elem))
+    conds = [eng.truthy(eng.ev1(c, s2), s2) for c in comp.ifs]
+    cond = And(*conds)
+    cache = eng.__dict__.setdefault('_filter_cache', {})
+    key = (sort, cond.s.replace(x.s, '?x'))
+    name = cache.get(key)
+    if name is None:
+        import hashlib
+        name = 'filter_' + hashlib.sha1(repr(key).encode()).hexdigest()[:10]
+        eng.ctx.fun(name, [sort], sort)
+        ys = smt.bound(eng.ctx, 'ys', sort)
+        last = At(ys, Sub(Len(ys), IntV(1)))
+        cond_last = smt.T(cond.s.replace(x.s, last.s), BOOL, (cond.syms - x.syms) | last.syms, cond.apps)
+        F = lambda a: eng.ctx.app(name, a)
+        ax = [Eq(F(smt.Empty(sort)), smt.Empty(sort)),
+              ForAll([ys], Implies(Gt(Len(ys), IntV(0)),
+                                   Eq(F(ys), Cc(F(Substr(ys, IntV(0), Sub(Len(ys), IntV(1)))),
+                                                Ite(cond_last, smt.Unit(last), smt.Empty(sort))))), patterns=[[F(ys)]])]
+        eng.ctx.fun_axioms[name] = ax
+        cache[key] = name
+        eng.trusted_used.add('comprehension filter as the recursive definition %s' % name)
+    eng.last_comp = None
+    return VSeq(eng.ctx.app(name, seq), elem)
